@@ -190,6 +190,7 @@ type Exec struct {
 	randReads  [][]*Term
 	concRandom bool
 	concRandN  uint64
+	gMark      int
 }
 
 func (x *Exec) end(status, msg string) {
